@@ -18,6 +18,10 @@ CHECKS = {
          "The real h2.Config.Proxy runs between two frame-level endpoints (which close their side on EOF/error like real peers) over simnet under the gosim scheduler: 7 terminating events (client closes, server closes, write failure toward either side, malformed frame from either side, proxy shutdown) x 4 session states (idle, mid-stream, DATA blocked on a zero window with trailers queued, output channel full because the server stopped reading) + bad preface + dial error; every schedule with <=1 (quick) / <=2 (thorough) deviations; oracle at the first quiescent point with zero virtual time elapsed: Proxy returned, its upstream connection is closed, no thread spawned by the session is alive.",
          "TLS replaced by the dial seam (no close_notify); a peer that stopped reading never closes.",
          "stateless schedule/fault enumeration of the implementation (gosim)", "gosim", "DESIGN.md §7 C10"),
+ "C11": ("model_checking",
+         "Exhaustive enumeration of gRPC message sequences (length 0..2/3 over sizes {0,1,5,300,70000}) x compressed flag x encoding {identity, gzip, deflate, snappy} x END_STREAM placement x direction x ALL 2^(L-1) cut-point sets of the length-prefixed byte stream for L<=12/14 and all <=3-cut sets over boundary-focused positions for longer streams x gRPC / non-gRPC content types, driven through the real grpc adapter/emitter pair (hook h2.NewProcessorsForVerif, add-only, tag verif); oracles: a recording processor sees exactly the decompressed messages; a pass-through processor yields the same messages in the same wire format at the sink (independent parser and decoders), END_STREAM exactly once and last; non-gRPC streams byte-identical.",
+         "Cut sets for long streams restricted to boundary-focused positions; one stream at a time.",
+         "bounded-exhaustive input enumeration (all cut-point sets) against a reference model", "enum", "DESIGN.md §7 C11"),
  "C12": ("model_checking",
          "Program enumeration: every configuration tree with up to 3-5 (quick) / 4-6 (thorough) nodes over probe leaves, erroring leaves, state-changing leaves, fifo.Group (aggregating or not), priority.Group (priorities {0,1}), url/header/querystring/method/cookie filters with modifier and optional else, and 6 scope forms at every node, is rendered to JSON, parsed by the real parse.FromJSON and evaluated on requests and responses for every truth assignment of its filter conditions, against a reference interpreter written from the statement (trace order, error multiset, state); every node is also replaced by unknown names, unsupported/unimplemented scopes and syntactic corruptions (every prefix for small documents) and POSTed to a long-lived martianhttp.Modifier: 400, previous configuration fully in force, accepted ones replace completely.",
          "Reduced alphabets for the larger sizes; well-formed JSON of the wrong type not examined.",
